@@ -394,7 +394,7 @@ func runC04(e *Engine, r *Report) {
 				continue
 			}
 			cb, isC := isConstBool(args[3])
-			before, _ := e.alwaysPrecededBy(s.(ssa.Instruction), isSavedOK, 0)
+			before, _ := e.alwaysPrecededBy(s.(ssa.Instruction), isSavedOK, 2)
 			r.check(isC && (cb == !before), "GD-fastapply", "applySnapshotAndUpdate(fastApply) in "+fname(s.Parent())+" #"+map[bool]string{true: "after-save", false: "before-save"}[before], e.ipos(s),
 				"fast-apply updates are applied before the save, all others only after it", "the fastApply argument does not match the position relative to SaveRaftState")
 		}
